@@ -122,9 +122,10 @@ def unforge_signature(data: bytes) -> str:
     """Decode signature from byte form.
 
     :param data: encoded signature.
-    :returns: base58 encoded signature (generic)
+    :returns: base58 encoded signature (generic, or BLsig for 96-byte BLS signatures which have no generic form)
     """
-    return base58_encode(data, b'sig').decode()
+    prefix = b'BLsig' if len(data) == 96 else b'sig'
+    return base58_encode(data, prefix).decode()
 
 
 def forge_bool(value: bool) -> bytes:
